@@ -82,6 +82,21 @@ def cls4(ctx, lib):
                         ops = [d.operand(a) for a in t2["args"]]
                         if any(local.peel(o2)[0] == "agg" and local.peel(o2)[1] == "closure" and local.peel(o2)[2] == b.path for o2 in ops):
                             use = (callee_name(t2) or "", ops, bj, parent, d)
+                if use is None and site is not None:
+                    # the closure is bound to a local and captured by another closure, which applies it (`.map(|it| it.chars().map(convert_char).join(""))`)
+                    parent = site[0]
+                    for cc in [c for c in lib.bodies if c.kind == "closure" and c.direct_parent == parent.path and c.path != b.path]:
+                        ups = common.upvar_origins(lib, cc)
+                        if not ups:
+                            continue
+                        mine = {c["name"] for c, o2 in zip(cc.captures, ups) if local.peel(o2)[0] == "agg" and local.peel(o2)[1] == "closure" and local.peel(o2)[2] == b.path}
+                        if not mine:
+                            continue
+                        dcc = local.Defs(cc)
+                        for bj, t2 in cc.calls():
+                            ops = [dcc.operand(a) for a in t2["args"]]
+                            if any(local.peel(o2)[0] == "upvar" and local.peel(o2)[1] in mine for o2 in ops[1:]):
+                                use = (callee_name(t2) or "", ops, bj, cc, dcc)
                 if use is None:
                     verdict = ("undecided", "cannot find where the deciding closure is used")
                     break
